@@ -116,3 +116,58 @@ Definition chunk_header (userid out_seq out_frag in_seq in_frag : N) (last : boo
 Definition probe_header (userid fragsize : N) : list N :=
   let f := fragsize mod 2048 in
   [ 114; b32_5to8 ((userid * 2 + (f / 1024) mod 2) mod 32); b32_5to8 ((f / 32) mod 32); b32_5to8 (f mod 32); 100 ].
+
+(* ---- complete query names as the client's send functions build them ---------------- *)
+
+(* send_chunk: header depends on whether the whole remainder was consumed (last-fragment flag) *)
+Definition send_chunk_name (c : codec) (userid out_seq out_frag in_seq in_frag : N) (cmc : nat)
+           (data topdomain : list N) (maxlen : nat) : option (list N * nat) :=
+  match build_hostname c 4091 data topdomain maxlen with
+  | None => None
+  | Some (nm, n) =>
+      Some (chunk_header userid out_seq out_frag in_seq in_frag (Nat.eqb n (length data)) cmc ++ nm, n)
+  end.
+
+(* send_fragsize_probe: 256 probe bytes from the 16-bit rand_seed *)
+Definition probe_data (rand_seed : N) : list N :=
+  let a := N.max 1 (rand_seed mod 256) in
+  let b := N.max 1 ((rand_seed / 256) mod 256) in
+  a :: b :: repeat a 254.
+
+Definition probe_name (c : codec) (userid fragsize rand_seed : N) (topdomain : list N) (maxlen : nat)
+  : option (list N * nat) :=
+  match build_hostname c 4091 (probe_data rand_seed) topdomain maxlen with
+  | None => None
+  | Some (nm, n) => Some (probe_header userid fragsize ++ nm, n)
+  end.
+
+Definition seed_bytes (rand_seed : N) : list N := [(rand_seed / 256) mod 256; rand_seed mod 256].
+
+(* payloads of the send_packet family *)
+Definition version_data (version rand_seed : N) : list N :=
+  [(version / 16777216) mod 256; (version / 65536) mod 256; (version / 256) mod 256; version mod 256] ++ seed_bytes rand_seed.
+Definition login_data (userid : N) (login : list N) (rand_seed : N) : list N :=
+  userid :: firstn 16 (login ++ repeat 0 16) ++ seed_bytes rand_seed.
+Definition ping_data (userid in_seq in_frag rand_seed : N) : list N :=
+  [userid; ((in_seq mod 8) * 16 + in_frag mod 16)] ++ seed_bytes rand_seed.
+Definition fragsize_data (userid fragsize rand_seed : N) : list N :=
+  [userid; (fragsize / 256) mod 256; fragsize mod 256] ++ seed_bytes rand_seed.
+
+(* send_handshake_query(prefix): prefix (<= 60 chars) + 3 base32 CMC chars + "." + topdomain *)
+Definition cmc3 (rand_seed : N) : list N :=
+  [b32_5to8 ((rand_seed / 1024) mod 32); b32_5to8 ((rand_seed / 32) mod 32); b32_5to8 (rand_seed mod 32)].
+Definition handshake_name (prefix : list N) (rand_seed : N) (topdomain : list N) : list N :=
+  firstn 299 (firstn 60 prefix ++ cmc3 rand_seed ++ [DOT] ++ topdomain).
+(* send_upenctest(s): "z" + CMC + s (<= 128) + "." + topdomain *)
+Definition upenctest_name (s : list N) (rand_seed : N) (topdomain : list N) : list N :=
+  122 :: cmc3 rand_seed ++ firstn 128 s ++ [DOT] ++ topdomain.
+
+(* PROVISIONAL (until Domain.v from the C17 work is wired in): data length of a query name under a
+   plain (non-wildcard) domain -- case-insensitive suffix at a label boundary *)
+Definition lcase (ch : N) : N := if (65 <=? ch) && (ch <=? 90) then ch + 32 else ch.
+Definition plain_datalen (q d : list N) : option nat :=
+  if (length q <? length d)%nat || (length d <? 3)%nat then None else
+  let n := (length q - length d)%nat in
+  if forallb (fun p => lcase (fst p) =? lcase (snd p)) (combine (skipn n q) d)
+     && ((n =? 0)%nat || (nth (n - 1) q 0 =? DOT))
+  then Some n else None.
